@@ -64,6 +64,7 @@ def generate(tier, seed):
         pkg = _pkg(rng, rng.randint(2, 9))
         wav = pkg['wav']
         reqs = [w for w in wav] + [(a * 3 + b) / 4 for a, b in zip(wav, wav[1:])] + [wav[0] / 3, wav[-1] * 3]
+        pkg['flux_unit'] = ['mJy', 'Jy', 'erg / (cm2 s)', 'mJy', 'erg / s'][len(cases) % 5]       # the unit the cube is stored in
         cases.append(dict(kind='cube', pkg=pkg, requests=reqs))
     return cases
 
@@ -139,9 +140,11 @@ def judge(case, im, mo):
             if len(dist) > 1 and abs(dist[1] - dist[0]) < 1e-9 * w:
                 continue
             ka = 0 if pkg['aps'] is None else 1
-            want = [pkg['seds'][n]['flux'][ka][j] for n in pkg['par_order']]
+            def mjy(x, idx):          # stored number -> mJy at that wavelength (1 kpc)
+                return float(pkgcase.to_mjy(pkg, x, 299792458.0 / (dwav[idx] * 1e-6)))
+            want = [mjy(pkg['seds'][n]['flux'][ka][j], j) for n in pkg['par_order']]
             near = min(range(nw), key=lambda i: abs(dwav[i] - w))
-            want_doc = [pkg['seds'][n]['flux'][ka][near] for n in pkg['par_order']]
+            want_doc = [mjy(pkg['seds'][n]['flux'][ka][near], near) for n in pkg['par_order']]
             if any(abs(a - b) > 1e-6 * abs(b) for a, b in zip(got, want)):
                 disagree.append('requested %r micron: fluxes %r, model slice %d gives %r' % (w, got, j, want))
             if any(abs(a - b) > 1e-6 * abs(b) for a, b in zip(got, want_doc)):
